@@ -806,6 +806,25 @@ func (e *enc) specCall(env *specEnv, n *SCall) (tval, error) {
 			}
 			return e.mkT(rs[0], pf.Signature.Results().At(0).Type()), nil
 		}
+		// a function-valued parameter / local applied to arguments: the same deterministic function symbol the encoder uses
+		if fv, err := e.specIdent(env, n.Fun); err == nil && fv.ty != nil {
+			if sig, ok := fv.ty.Underlying().(*types.Signature); ok && sig.Results().Len() == 1 {
+				as, err := args()
+				if err != nil {
+					return tval{}, err
+				}
+				sorts := []string{"Int"}
+				ts := []Term{fv.t}
+				for _, a := range as {
+					sorts = append(sorts, a.sort)
+					ts = append(ts, a.t)
+				}
+				rty := sig.Results().At(0).Type()
+				rs := e.so.of(rty)
+				fn := e.uf(fmt.Sprintf("dyn_%s_%d", clean(strings.Join(sorts, "_")+"_"+rs), 0), sorts, rs)
+				return e.mkT(fmt.Sprintf("(%s %s)", fn, strings.Join(ts, " ")), rty), nil
+			}
+		}
 		return tval{}, fmt.Errorf("unknown spec function %s", n.Fun)
 	}
 	if err := e.declareSpecFunc(f); err != nil {
